@@ -69,6 +69,7 @@ type Upload struct {
 	Data    []byte
 	Gen     int // bumps when the location changes
 	Patches int
+	cut     bool
 }
 
 type Repo struct {
@@ -113,6 +114,7 @@ type Knobs struct {
 	ManifestPutNoLocation bool
 	DeleteBlob     bool
 	NoRangeOnJSON  bool // manifests and listings ignore Range (as most real registries do)
+	PutKeepsThenFails int // >0: the first PUT carrying a body stores that many bytes of it in the session and fails with 502 (a proxy cut the transfer)
 	MountDeclineFrom string // mounts whose source repository starts with this prefix are declined (per-repository permissions)
 }
 
@@ -623,6 +625,15 @@ func (g *Reg) uploads(req *simnet.Request, repo, id string, q url.Values) *simne
 		if len(req.Body) > 0 {
 			if g.K.RefuseMonoPut && len(u.Data) == 0 {
 				return resp(400, "UNSUPPORTED")
+			}
+			if g.K.PutKeepsThenFails > 0 && !u.cut && len(u.Data) == 0 && len(req.Body) > 1 {
+				keep := g.K.PutKeepsThenFails
+				if keep > len(req.Body)-1 {
+					keep = len(req.Body) - 1
+				}
+				u.Data = append(u.Data, req.Body[:keep]...)
+				u.cut = true
+				return resp(502, "BAD_GATEWAY")
 			}
 			if cr := req.Header.Get("Content-Range"); cr != "" {
 				parts := strings.SplitN(cr, "-", 2)
